@@ -55,6 +55,11 @@ func reTable(pat string) string {
 	return jmap(m)
 }
 
+func compiles(rule string) bool {
+	_, err := regexp.Compile("(?:" + rule + ")")
+	return err == nil
+}
+
 func (in *rinst) stateKey() string {
 	ps := make([]string, 0, len(in.shadow))
 	for p, ms := range in.shadow {
